@@ -307,6 +307,96 @@ pub fn judge(carrier: &str, s: &str) -> Verdict {
     Verdict::Pass { nt, class }
 }
 
+/// Non-interference for a whole tree: replace every user string by a neutral one (letters only,
+/// keeping the characters that legitimately select another matcher, and keeping equal strings
+/// equal and different strings different): the program must keep its structure, the destination
+/// table its size, and every user string of a test must be a string literal of the program.
+pub fn judge_tree(tree: &E) -> Verdict {
+    let mut names: std::collections::BTreeMap<String, String> = std::collections::BTreeMap::new();
+    let mut neutral_of = |x: &str| -> String {
+        let k = names.len();
+        names
+            .entry(x.to_string())
+            .or_insert_with(|| {
+                let mut suffix = String::new();
+                let mut n = k;
+                loop {
+                    suffix.push((b'b' + (n % 24) as u8) as char);
+                    n /= 24;
+                    if n == 0 {
+                        break;
+                    }
+                }
+                format!("{}q{suffix}", neutral(x))
+            })
+            .clone()
+    };
+    let plain = tree.map_strings(&mut neutral_of);
+    let comp = |t: &E| match policy::compile_tree(t, None, "/dev/mdt0") {
+        CompileOutcome::Ok(c) => Ok(c),
+        CompileOutcome::Err(e) => Err(format!("compile error: {e}")),
+        CompileOutcome::Panic(p) => Err(format!("compile panicked: {p}")),
+    };
+    // both programs are compiled in the same wall-clock second (time tests embed it)
+    let (mut a, mut b) = (comp(tree), comp(&plain));
+    for _ in 0..20 {
+        match (&a, &b) {
+            (Ok(x), Ok(y)) if x.now != y.now => {
+                a = comp(tree);
+                b = comp(&plain);
+            }
+            _ => break,
+        }
+    }
+    if let (Ok(x), Ok(y)) = (&a, &b) {
+        if x.now != y.now {
+            return Verdict::Skip("the clock second kept changing between the two compilations");
+        }
+    }
+    let (a, b) = match (a, b) {
+        (Ok(a), Ok(b)) => (a, b),
+        (Err(e), _) | (_, Err(e)) if e.contains("panicked") => return Verdict::Fail(format!("{tree:?}: {e}")),
+        (Err(_), Err(_)) => return Verdict::Skip("does not compile (C12 decides that)"),
+        (Ok(_), Err(e)) => return Verdict::Fail(format!("{tree:?} compiles, but with neutral strings ({plain:?}) it does not: {e}")),
+        (Err(e), Ok(_)) => return Verdict::Fail(format!("{plain:?} compiles, but with the user's strings ({tree:?}) it does not: {e}")),
+    };
+    let forms = match sx::read_all(&a.text) {
+        Ok(f) => f,
+        Err(e) => return Verdict::Fail(format!("{tree:?}: emitted program does not read as Scheme: {e}\nprogram:\n{}", a.text)),
+    };
+    let forms0 = match sx::read_all(&b.text) {
+        Ok(f) => f,
+        Err(e) => return Verdict::OracleBug(format!("program for the neutral tree {plain:?} does not read: {e}")),
+    };
+    if forms.len() != 2 || forms[0].head() != Some("use-modules") || forms[1].head() != Some("let*") {
+        return Verdict::Fail(format!("{tree:?}: program reads as {} top-level forms instead of (use-modules ...) (let* ...)\nprogram:\n{}", forms.len(), a.text));
+    }
+    let (sh, sh0): (Vec<Sx>, Vec<Sx>) = (forms.iter().map(shape).collect(), forms0.iter().map(shape).collect());
+    if sh != sh0 {
+        return Verdict::Fail(format!("the characters of the user strings decide the structure of the program: {tree:?} and the same expression with neutral strings {plain:?} give differently shaped programs\nprogram:\n{}\nprogram with neutral strings:\n{}", a.text, b.text));
+    }
+    if a.io_map.as_ref().map(|m| m.len()) != b.io_map.as_ref().map(|m| m.len()) {
+        return Verdict::Fail(format!("the characters of the user strings decide the size of the destination table: {tree:?} -> {:?}, neutral {plain:?} -> {:?}", a.io_map, b.io_map));
+    }
+    let mut st = vec![];
+    for f in &forms {
+        strings(f, &mut st);
+    }
+    for l in tree.leaves() {
+        let wanted: Vec<&String> = match l {
+            E::T(Tst::Name(x)) | E::T(Tst::IName(x)) | E::T(Tst::Path(x)) | E::T(Tst::IPath(x)) | E::T(Tst::Pool(x)) | E::T(Tst::Xattr(x)) => vec![x],
+            E::T(Tst::XattrMatch(a, b)) => vec![a, b],
+            _ => vec![],
+        };
+        for w in wanted {
+            if !st.iter().any(|lit| lit == w) {
+                return Verdict::Fail(format!("{tree:?}: the user string {w:?} is not a string literal of the program\nprogram:\n{}", a.text));
+            }
+        }
+    }
+    Verdict::Pass { nt: tree.user_strings().len() >= 2, class: "whole tree against its neutral twin" }
+}
+
 fn policy_io_map(tree: &E) -> Option<std::collections::BTreeMap<u32, (crate::speceval::Dest, Option<char>)>> {
     use lipe_find_parser::{compile, RunOptions};
     let x = to_ast(tree);
@@ -322,6 +412,9 @@ pub fn replay(case: &Value) -> Result<Verdict, String> {
         // the long string alone, on one thread (the concurrent part of the failure is not replayed)
         let s = case["unit"].as_str().unwrap_or("").repeat(case["count"].as_u64().unwrap_or(1) as usize);
         return Ok(judge(case["carrier"].as_str().ok_or("carrier")?, &s));
+    }
+    if case["kind"] == "tree" {
+        return Ok(judge_tree(&term::decode_expr(case["tree"].as_str().ok_or("no tree")?)?));
     }
     Ok(judge(case["carrier"].as_str().ok_or("no carrier")?, case["string"].as_str().ok_or("no string")?))
 }
@@ -497,6 +590,38 @@ pub fn run(ctx: &Ctx) -> Report {
     total.merge(long);
     total.exhaustive_parts.push("long strings (63..3000 bytes) with a multi-byte or hostile character straddling power-of-two offsets, per carrier".into());
 
+    // whole trees against their neutral twins: requests that a concatenated key would confuse,
+    // interaction triples, and random trees whose strings come from the dictionary and the pools
+    let tree_json = |t: &E| json!({"kind": "tree", "tree": term::encode_expr(t)});
+    let twins = crate::combo::concat_twin_trees();
+    let tw = run_shards(16, |shard| {
+        let mut st = Stats::new();
+        for (i, t) in twins.iter().enumerate().filter(|(i, _)| i % 16 == shard) {
+            let v = judge_tree(t);
+            st.record(&v, stable_hash(t), true, || tree_json(t));
+        }
+        st.samples.truncate(1);
+        st
+    });
+    total.merge(tw);
+    let tr = crate::combo::run_triples(ctx.seed, &crate::combo::supported_kinds(), ctx.tier.pick(64, 4), judge_tree, tree_json);
+    total.merge(tr);
+    let rt = run_shards(16, |shard| {
+        let mut st = Stats::new();
+        let tok = || prop::sample::select(crate::dict::tokens());
+        let leaf = prop_oneof![
+            6 => crate::gen::supported_leaf(),
+            1 => tok().prop_map(|t| E::T(Tst::Name(t))),
+            1 => tok().prop_map(|t| E::T(Tst::IPath(t))),
+            1 => tok().prop_map(|t| E::T(Tst::Pool(t))),
+            1 => tok().prop_map(|t| E::A(Act::FPrint(t))),
+            1 => (tok(), tok()).prop_map(|(a, b)| E::T(Tst::XattrMatch(a, b))),
+        ];
+        run_prop(&mut st, ctx.seed, "C04-tree", shard as u64, ctx.tier.pick(20_000u32, 200_000u32) / 16, &crate::gen::expr_over(leaf.boxed(), 4, 12, true), judge_tree, |t| tree_json(t));
+        st
+    });
+    total.merge(rt);
+
     let cases = ctx.tier.pick(160_000u32, 1_600_000u32);
     let shards = 16;
     let dict2 = dict.clone();
@@ -522,7 +647,7 @@ pub fn run(ctx: &Ctx) -> Report {
     total.merge(rnd);
     Report {
         stats: total,
-        rule: format!("carriers: -name -iname -path -ipath -pool -xattr, both arguments of -xattr-match, the file of -fprint/-fprint0/-fprintf, literal text of -printf/-fprintf formats, the selector of %Ak/%Ck/%Tk, and the device path given to scheme(); strings over {{\" \\ ~ % ( ) ; # ' LF TAB U+0001 U+007F e-acute CJK a space}} exhaustively to length {max_len} and randomly to length 40 (plus printable-ASCII and arbitrary-Unicode strings); the string reaches the carrier through parse when a quoting style can express it, and by direct construction always. Oracle: independent Guile reader -> (a) exactly two top-level forms (use-modules ...)(let* ...); (b) the program read for s has the same structure as the program for the neutralised string s0 and its string literals differ from it only in the carrier's literal, which decodes to exactly s; (c) literal format text is printed verbatim when the policy is executed. Non-trivial: s contains one of \" \\ ~ ; # ( ) % or a control/non-ASCII character. Distinct: by (carrier, string)."),
+        rule: format!("carriers: -name -iname -path -ipath -pool -xattr, both arguments of -xattr-match, the file of -fprint/-fprint0/-fprintf, literal text of -printf/-fprintf formats, the selector of %Ak/%Ck/%Tk, and the device path given to scheme(); strings over {{\" \\ ~ % ( ) ; # ' LF TAB U+0001 U+007F e-acute CJK a space}} exhaustively to length {max_len} and randomly to length 40 (plus printable-ASCII and arbitrary-Unicode strings); the string reaches the carrier through parse when a quoting style can express it, and by direct construction always. Oracle: independent Guile reader -> (a) exactly two top-level forms (use-modules ...)(let* ...); (b) the program read for s has the same structure as the program for the neutralised string s0 and its string literals differ from it only in the carrier's literal, which decodes to exactly s; (c) literal format text is printed verbatim when the policy is executed. Whole trees (requests that a key made by concatenation would confuse, interaction triples, random trees with dictionary strings) are compared with their neutral twin - every user string replaced by letters, equal strings staying equal and different ones different: same program structure, same size of the destination table, every string of a test a literal of the program. Non-trivial: s contains one of \" \\ ~ ; # ( ) % or a control/non-ASCII character. Distinct: by (carrier, string)."),
         assumptions: vec![
             "the harness's reader implements Guile's string escapes strictly (unknown escape = read error)".into(),
             "format literal text excludes '%' and '\\' (they introduce directives/escapes in find's own language); U+001E (the frame separator) is excluded from user data".into(),
